@@ -56,6 +56,8 @@ type Program struct {
 	// identifier with such a name that no definition of the file provides is a dangling
 	// reference (stuck), not a library function the model lacks.
 	GoNames map[string]bool
+	// StrictCond selects Go's condition-variable semantics in the schedule explorer.
+	StrictCond bool
 }
 
 func NewProgram(f *File) *Program {
@@ -85,6 +87,8 @@ type Interp struct {
 	StoreEpoch int64
 	// Trace of library calls by name (coverage information)
 	PrimCalls map[string]int
+	// StrictCond: see Program.StrictCond
+	StrictCond bool
 	// CallStack holds the names of the rec-closures being evaluated; it is not unwound on a
 	// panic, so after Stuck it tells where evaluation stopped.
 	CallStack []string
@@ -566,6 +570,11 @@ func (in *Interp) evalApp(th *Thread, e App, env *Env, scope int) Val {
 			if v, ok := in.evalSpecial(th, g.Name, e, env, scope); ok {
 				return v
 			}
+		}
+	}
+	if th != nil {
+		if g, ok := e.Fn.(Global); ok && g.Name == "lock.acquire" && len(e.Args) > 0 {
+			th.site = fmt.Sprintf("%p", e.Args)
 		}
 	}
 	// arguments right to left, then the function
